@@ -382,6 +382,86 @@ func ruleIMM3(c *Ctx) {
 			c.check(s.Origin&(oMut|oImm) == 0, seq.next(ctx+"/element-write"), &posNode{s.Pos}, "write goes to storage of origin "+originStr(s.Origin), "freeze writes through storage of an existing container (origin "+originStr(s.Origin)+"): it modifies its argument")
 		}
 	}
+	// memo maps an original to its frozen counterpart: only freshly built
+	// immutable containers may be stored in it; and every element put into a
+	// frozen container is the result of freezing that element
+	for _, fd := range fns {
+		var memoObj types.Object
+		for _, f := range fd.Type.Params.List {
+			for _, nm := range f.Names {
+				o := w.Root.TypesInfo.Defs[nm]
+				if m, ok := o.Type().Underlying().(*types.Map); ok && types.IsInterface(m.Key()) {
+					memoObj = o
+				}
+			}
+		}
+		isFreezeCall := func(e ast.Expr) bool {
+			call, ok := ast.Unparen(e).(*ast.CallExpr)
+			if !ok {
+				return false
+			}
+			fn := Callee(w.Root, call)
+			return fn != nil && names[fn.Name()]
+		}
+		// variables defined from a recursive freeze call
+		frozenVars := map[types.Object]bool{}
+		ast.Inspect(fd.Body, func(n ast.Node) bool {
+			as, ok := n.(*ast.AssignStmt)
+			if ok && len(as.Lhs) == 1 && len(as.Rhs) == 1 && isFreezeCall(as.Rhs[0]) {
+				if id, ok := as.Lhs[0].(*ast.Ident); ok {
+					if o := w.Root.TypesInfo.Defs[id]; o != nil {
+						frozenVars[o] = true
+					}
+				}
+			}
+			return true
+		})
+		k := 0
+		ast.Inspect(fd.Body, func(n ast.Node) bool {
+			as, ok := n.(*ast.AssignStmt)
+			if !ok || len(as.Lhs) != 1 || len(as.Rhs) != 1 {
+				return true
+			}
+			ix, ok := as.Lhs[0].(*ast.IndexExpr)
+			if !ok {
+				return true
+			}
+			k++
+			base, isId := ast.Unparen(ix.X).(*ast.Ident)
+			if isId && memoObj != nil && w.Root.TypesInfo.Uses[base] == memoObj {
+				// memo[o] = X : X must be a variable defined by &Immutable…{…}
+				good := false
+				if id, ok := ast.Unparen(as.Rhs[0]).(*ast.Ident); ok {
+					obj := w.Root.TypesInfo.Uses[id]
+					ast.Inspect(fd.Body, func(m ast.Node) bool {
+						d, ok := m.(*ast.AssignStmt)
+						if !ok || len(d.Lhs) != 1 || len(d.Rhs) != 1 {
+							return true
+						}
+						if lid, ok := d.Lhs[0].(*ast.Ident); ok && w.Root.TypesInfo.Defs[lid] == obj {
+							if u, ok := d.Rhs[0].(*ast.UnaryExpr); ok {
+								if cl, ok := u.X.(*ast.CompositeLit); ok {
+									tn, _ := namedName(w.Root.TypesInfo.Types[cl].Type)
+									good = fi.Immutable[tn]
+								}
+							}
+						}
+						return true
+					})
+				}
+				c.check(good, fmt.Sprintf("freeze/memo-store/%s#%d", w.ctxKey(as.Pos()), k), as, "memo maps the original to a freshly built immutable container", "the freeze memo is given a value that is not a freshly built immutable container ("+w.Src(as)+"): a later reference to the same object would get back something that was never deep-frozen")
+				return true
+			}
+			// element stores: X[i] = v  where X ends up as frozen storage
+			rhs := ast.Unparen(as.Rhs[0])
+			good := isFreezeCall(rhs)
+			if id, ok := rhs.(*ast.Ident); ok && frozenVars[w.Root.TypesInfo.Uses[id]] {
+				good = true
+			}
+			c.check(good, fmt.Sprintf("freeze/element-frozen/%s#%d", w.ctxKey(as.Pos()), k), as, "element stored is the frozen form of the original element", "freeze stores an element that is not the result of freezing it ("+w.Src(as)+"): not everything reachable from the result is immutable")
+			return true
+		})
+	}
 	c.check(lits >= 4, "freeze/constructions", entry, fmt.Sprintf("%d immutable constructions examined in %v", lits, sortedKeys(names)), fmt.Sprintf("expected >=4 immutable constructions in freeze, found %d", lits))
 }
 
